@@ -54,7 +54,8 @@ var c11Kinds = []string{
 	"install", "install", "refresh", "refresh", "refresh", "refresh", "refresh", "refresh-kept", "refresh-kept",
 	"revert", "revert", "revert-to", "enable", "disable", "disable", "remove", "remove", "remove", "remove-rev", "remove-rev", "remove-rev", "remove-rev", "remove-rev",
 	"switch", "set-config", "set-config", "set-retain", "episode-disabled", "episode-disabled",
-	"episode-remove-current", "episode-remove-current", "episode-remove-current",
+	"episode-remove-current", "episode-remove-current", "episode-remove-current", "episode-remove-current", "episode-remove-current",
+	"remove",
 }
 
 func c11Gen(t *rapid.T) c11Case {
@@ -373,8 +374,8 @@ func TestVerifC11(t *testing.T) {
 			ID: "C11", Engine: "histories",
 			Gen:             c11Gen,
 			Run:             func(cs c11Case) (verifkit.Outcome, error) { return c11Run(c, cs) },
-			Floors:          map[string]float64{"failed-then-ok": 0.25, "remove-noncurrent": 0.15, "whole-remove": 0.08, "refused-request": 0.10,
-				"remove-current-of-disabled": 0.12, "remove-current-of-disabled-not-last": 0.05, "enabled-after-remove-current": 0.05},
+			Floors:          map[string]float64{"failed-then-ok": 0.25, "remove-noncurrent": 0.15, "whole-remove": 0.05, "refused-request": 0.07,
+				"remove-current-of-disabled": 0.08, "remove-current-of-disabled-not-last": 0.04, "enabled-after-remove-current": 0.03},
 			NonTrivialFloor: 0.5,
 		})
 	})
